@@ -704,7 +704,8 @@ class Check:
                                        'uninstall-removed-unlogged', **base)
                 if kept_logged:
                     return R.violation('uninstall-left-logged', f'step {si}: uninstall left logged paths behind: {kept_logged[:6]}', 'uninstall-left-logged', **base)
-                for p, it in pre.items():
+                for p in pre:
+                    it = before.get(p)           # as the uninstall found it (an install may have given a user's directory the mode an install_emptydir() declares)
                     if after.get(p) != it:
                         return R.violation('uninstall-damaged-preexisting', f'step {si}: pre-existing {p} changed by uninstall: {it} -> {after.get(p)}',
                                            'uninstall-damaged-preexisting', **base)
@@ -723,7 +724,8 @@ class Check:
             fresh = not any(p not in pre for p in before)
             explicit = self.explicit_dirs(spec, destdir)
             # (only the install_emptydir() rules this step selects: a directory another selected rule installs into keeps its mode)
-            explicit = {p for p in explicit if any(p in IR.expected_tree({'prefix': spec['prefix'], 'umask': spec['umask'], 'rules': [r_]}, destdir, opts, ambient).items
+            explicit = {p for p in explicit if any(self.explicit_dirs({'prefix': spec['prefix'], 'rules': [r_]}, destdir) == {p} and
+                                                   IR.expected_tree({'prefix': spec['prefix'], 'umask': spec['umask'], 'rules': [r_]}, destdir, opts, ambient).items
                                                    for r_ in spec['rules'] if r_['kind'] == 'emptydir' and r_.get('mode'))}
             want: T.Dict[str, T.Tuple[T.Any, ...]] = dict(before)      # whatever is there stays (pre-existing files, earlier installs)
             for p, it in exp.items():
